@@ -295,6 +295,119 @@ namespace
     }
 
     // -------------------------------------------------------------------------------------------
+    // conflating dictionary push source: every accepted delta (set a key, remove a key - also one that is not there -, empty
+    // delta) must be reflected in the merged state the sink ends up with. Keys are disjoint per producer, so the expected
+    // final state is the per-key last accepted operation. Lines: P as above (id = producer*1000000 + i, op in the CD line),
+    //   CD <tid> <i> <op> <key> <value>     the delta sent as message i of this thread (op = set|rem|empty)
+    //   DV <evaltime_us> <steady_ts> <n> k=v ...   full value seen by the sink at a tick
+    // -------------------------------------------------------------------------------------------
+    void run_cpush(const std::map<std::string, std::string> &kv, Trace &tr)
+    {
+        const int producers      = (int)geti(kv, "producers", 2);
+        const long long msgs     = geti(kv, "msgs", 50);
+        const std::string pacing = gets(kv, "pacing", "rand");
+        const long long end_ms   = geti(kv, "end_ms", 3000);
+        const auto *tsd       = ts_type<TSD<Int, TS<Int>>>();
+        const auto *in_schema = hgraph::testing::single_input_schema(*tsd);
+        PushSourceSender sender;
+        std::atomic<bool> started{false};
+        DateTime start_time = hgraph::testing::wall_now();
+        NodeTypeMetaData sink_schema;
+        sink_schema.display_name = "verif_dict_sink";
+        sink_schema.input_schema = in_schema;
+        sink_schema.node_kind    = NodeKind::Sink;
+        NodeCallbacks cb;
+        std::atomic<long long> ticks{0};
+        cb.evaluate = [&](const NodeView &view, DateTime evaluation_time) {
+            auto root   = view.input(evaluation_time);
+            auto bundle = root.as_bundle();
+            auto in0    = bundle[0];
+            auto d      = in0.as_dict();
+            std::string items;
+            long long n = 0;
+            for (auto [k, child] : d.items())
+            {
+                if (!child.valid()) continue;
+                items += " " + k.to_string() + "=" + child.value().to_string();
+                ++n;
+            }
+            ticks.fetch_add(1);
+            tr.line("DV " + std::to_string(us_since(evaluation_time, start_time)) + " " + std::to_string(tr.now()) + " " + std::to_string(n) + items);
+        };
+        GraphBuilder builder;
+        builder.add_node(make_push_source_node(*tsd, make_push_source_conflating_policy(*tsd), [&](PushSourceSender s) {
+            sender = std::move(s);
+            started.store(true, std::memory_order_release);
+        }));
+        builder.add_node(NodeBuilder::native(std::move(sink_schema), std::move(cb), hgraph::testing::single_input_endpoint(*in_schema, *tsd)));
+        builder.add_edge(GraphEdge{.source_node = make_graph_edge_source(0), .source_path = {}, .target_node = 1, .target_path = {0}});
+        start_time = hgraph::testing::wall_now();
+        GraphExecutorBuilder eb;
+        eb.graph_builder(std::move(builder)).mode(GraphExecutorMode::RealTime).start_time(start_time).end_time(start_time + TimeDelta{end_ms * 1000});
+        auto executor = eb.make_executor();
+        auto view     = executor.view();
+        std::atomic<bool> run_returned{false};
+        std::atomic<int> producers_done{0};
+        std::vector<std::thread> threads;
+        std::mt19937_64 seed_rng((unsigned long long)geti(kv, "seed", 1));
+        for (int p = 0; p < producers; ++p)
+        {
+            const unsigned long long ps = seed_rng();
+            threads.emplace_back([&, p, ps] {
+                std::mt19937_64 rng(ps);
+                while (!started.load(std::memory_order_acquire) && !run_returned.load()) std::this_thread::yield();
+                PushSourceSender s = sender;
+                const auto pp = split(pacing, ':');
+                for (long long i = 0; i < msgs; ++i)
+                {
+                    const long long id  = (long long)(p + 1) * 1000000 + i;
+                    const Int       key = Int{(long long)(p + 1) * 100 + (long long)(rng() % 4)};
+                    const auto      r   = rng() % 10;
+                    std::string op;
+                    Value delta;
+                    // effective updates interleaved with deltas that change nothing (lenient removal of a key nobody ever set,
+                    // empty delta): accepted all the same, and never an excuse to lose the update accepted just before them
+                    if (r < 5) { op = "set"; delta = dict_delta<Int, TS<Int>>({{key, Int{id}}}); }
+                    else if (r < 8) { op = "remunseen"; delta = dict_delta<Int, TS<Int>>({}, {Int{999999}}); }
+                    else { op = "empty"; delta = dict_delta<Int, TS<Int>>({}); }
+                    tr.line("CD " + std::to_string(tid()) + " " + std::to_string(id) + " " + op + " " + std::to_string((long long)key) + " " + std::to_string(id));
+                    const long long c = tr.now();
+                    const bool ok = s.try_send(std::move(delta));
+                    const long long rt = tr.now();
+                    tr.line("P " + std::to_string(tid()) + " try " + std::to_string(id) + " " + std::to_string(c) + " " + std::to_string(rt) + " " + (ok ? "1" : "0"));
+                    if (run_returned.load()) break;
+                    if (pp[0] == "yield") std::this_thread::yield();
+                    else if (pp[0] == "sleep") std::this_thread::sleep_for(std::chrono::microseconds(std::atoll(pp.at(1).c_str())));
+                    else if (pp[0] == "rand")
+                    {
+                        const auto d = rng() % 4;
+                        if (d == 1) std::this_thread::yield();
+                        else if (d == 2) std::this_thread::sleep_for(std::chrono::microseconds(rng() % 300));
+                    }
+                }
+                producers_done.fetch_add(1);
+            });
+        }
+        std::thread controller([&] {
+            while (producers_done.load() < producers && !run_returned.load()) std::this_thread::sleep_for(std::chrono::microseconds(100));
+            // bounded progress: the run continues well beyond the last send before the stop is requested
+            std::this_thread::sleep_for(std::chrono::milliseconds(150));
+            const long long c = tr.now();
+            view.request_stop();
+            tr.line("STOP " + std::to_string(c) + " " + std::to_string(tr.now()));
+        });
+        const long long rs = tr.now();
+        std::string status = "ok";
+        try { view.run(); }
+        catch (const std::exception &e) { status = "error"; tr.line(std::string("X ") + e.what()); }
+        const long long rr = tr.now();
+        run_returned.store(true);
+        tr.line("RUN " + std::to_string(rs) + " " + std::to_string(rr) + " " + status + " " + std::to_string((long long)(start_time - DateTime{}).count()));
+        controller.join();
+        for (auto &t : threads) t.join();
+    }
+
+    // -------------------------------------------------------------------------------------------
     // timers scenario (static nodes; per-node plan looked up by label)
     // -------------------------------------------------------------------------------------------
     struct TimerPlan
@@ -440,6 +553,7 @@ int main(int argc, char **argv)
         try
         {
             if (gets(kv, "kind", "push") == "push") run_push(kv, tr);
+            else if (gets(kv, "kind", "push") == "cpush") run_cpush(kv, tr);
             else run_timers2(kv, tr);
         }
         catch (const std::exception &e) { tr.line(std::string("X scenario-failed ") + e.what()); }
